@@ -341,7 +341,9 @@ def _main(argv=None):
         "violations": out_viol,
     }
     os.makedirs(os.path.join(VERIF, "evidence"), exist_ok=True)
-    with open(os.path.join(VERIF, "evidence", pid + ".json"), "w") as f:
+    # runs against a scratch tree (seed validation) must not overwrite the evidence of the real tree
+    ev_path = os.path.join(VERIF, "evidence", pid + ".json") if os.path.realpath(REPO) == "/repo" else os.path.join(VERIF, "replays", f"scratch_evidence_{pid}.json")
+    with open(ev_path, "w") as f:
         json.dump(ev, f, indent=1, sort_keys=True, default=str)
     for l in lines:
         print(l)
